@@ -104,8 +104,9 @@ type Interface struct {
 	reQueryEvery    atomic.Uint32
 	reQueryWait     atomic.Int64
 
-	sendRecvErrorConfig   recvErrorConfig
-	acceptRecvErrorConfig recvErrorConfig
+	// sendRecvErrorConfig and acceptRecvErrorConfig hold a recvErrorConfig, they are reloadable while packets flow
+	sendRecvErrorConfig   atomic.Uint32
+	acceptRecvErrorConfig atomic.Uint32
 
 	// rebindCount is used to decide if an active tunnel should trigger a punch notification through a lighthouse
 	rebindCount atomic.Int32
@@ -569,20 +570,20 @@ func (f *Interface) reloadSendRecvError(c *config.C) {
 
 		switch stringValue {
 		case "always":
-			f.sendRecvErrorConfig = recvErrorAlways
+			f.sendRecvErrorConfig.Store(uint32(recvErrorAlways))
 		case "never":
-			f.sendRecvErrorConfig = recvErrorNever
+			f.sendRecvErrorConfig.Store(uint32(recvErrorNever))
 		case "private":
-			f.sendRecvErrorConfig = recvErrorPrivate
+			f.sendRecvErrorConfig.Store(uint32(recvErrorPrivate))
 		default:
 			if c.GetBool("listen.send_recv_error", true) {
-				f.sendRecvErrorConfig = recvErrorAlways
+				f.sendRecvErrorConfig.Store(uint32(recvErrorAlways))
 			} else {
-				f.sendRecvErrorConfig = recvErrorNever
+				f.sendRecvErrorConfig.Store(uint32(recvErrorNever))
 			}
 		}
 
-		f.l.Info("Loaded send_recv_error config", "sendRecvError", f.sendRecvErrorConfig.String())
+		f.l.Info("Loaded send_recv_error config", "sendRecvError", recvErrorConfig(f.sendRecvErrorConfig.Load()).String())
 	}
 }
 
@@ -592,20 +593,20 @@ func (f *Interface) reloadAcceptRecvError(c *config.C) {
 
 		switch stringValue {
 		case "always":
-			f.acceptRecvErrorConfig = recvErrorAlways
+			f.acceptRecvErrorConfig.Store(uint32(recvErrorAlways))
 		case "never":
-			f.acceptRecvErrorConfig = recvErrorNever
+			f.acceptRecvErrorConfig.Store(uint32(recvErrorNever))
 		case "private":
-			f.acceptRecvErrorConfig = recvErrorPrivate
+			f.acceptRecvErrorConfig.Store(uint32(recvErrorPrivate))
 		default:
 			if c.GetBool("listen.accept_recv_error", true) {
-				f.acceptRecvErrorConfig = recvErrorAlways
+				f.acceptRecvErrorConfig.Store(uint32(recvErrorAlways))
 			} else {
-				f.acceptRecvErrorConfig = recvErrorNever
+				f.acceptRecvErrorConfig.Store(uint32(recvErrorNever))
 			}
 		}
 
-		f.l.Info("Loaded accept_recv_error config", "acceptRecvError", f.acceptRecvErrorConfig.String())
+		f.l.Info("Loaded accept_recv_error config", "acceptRecvError", recvErrorConfig(f.acceptRecvErrorConfig.Load()).String())
 	}
 }
 
